@@ -216,9 +216,9 @@ func countingLoop(comp []*ssa.BasicBlock) bool {
 		case *ssa.Phi:
 			ph = x
 		case *ssa.BinOp:
-			if x.Op == token.ADD {
+			if x.Op == token.ADD || x.Op == token.SUB {
 				if p, ok := x.X.(*ssa.Phi); ok {
-					if k, isK := constInt(x.Y); isK && k > 0 {
+					if k, isK := constInt(x.Y); isK && k != 0 {
 						ph = p
 					}
 				}
@@ -236,8 +236,10 @@ func countingLoop(comp []*ssa.BasicBlock) bool {
 				}
 				continue
 			}
-			if bo, ok := e.(*ssa.BinOp); ok && bo.Op == token.ADD && bo.X == ssa.Value(ph) {
-				if k, isK := constInt(bo.Y); isK && k > 0 {
+			// a constant step in one direction (i++ / i += 2 / i--), tested against a bound the
+			// loop does not change
+			if bo, ok := e.(*ssa.BinOp); ok && (bo.Op == token.ADD || bo.Op == token.SUB) && bo.X == ssa.Value(ph) {
+				if k, isK := constInt(bo.Y); isK && k != 0 {
 					okStep = true
 					continue
 				}
